@@ -96,8 +96,14 @@ CHECKS["C04"] = dict(
           "verbatim (same element matrix with k in place of eps). GetK is tied to CHMaterialProp::GetK bit for bit on every "
           "run (in-process harness). The global property (free-node equations with k at the converged temperatures, all "
           "boundary types 0-3, conductors, reported heat flows, transient steps from a previous solution) is decided per run "
-          "by an independent nonlinear SI assembly evaluated at the temperatures the real hsolver wrote (labelled partial: "
-          "Picard convergence is runtime behaviour; no Lean model of the whole heat assembly yet)."),
+          "by an independent nonlinear SI assembly evaluated at the temperatures the real hsolver wrote. The WHOLE assembly of "
+          "one pass of HSolver::AnalyzeProblem (Model/HSolver.lean: conductivity averaging over the previous iterate, lumped "
+          "transient term, heat generation, flux / convection / radiation edges planar and axisymmetric, elimination of "
+          "prescribed nodes, floating-conductor folding, point sources, (anti)periodic ties, conductor rows) is compared bit "
+          "for bit with the system the real solver hands to PCGSolve in its first pass (hook dump), and its boundary-term "
+          "functions are proved to balance at the ambient temperature, to carry the exact edge integrals and to reproduce "
+          "Stefan-Boltzmann at the linearisation point. PARTIAL: Picard convergence is runtime behaviour (known finding: "
+          "radiation runaway with extreme sources)."),
     design_ref="DESIGN.md section 3, C04",
     technique="Lean 4 proof (ordered-field lemmas on the k(T) table, ring identities, shared element-level refinement) + GetK correspondence + independent nonlinear weak-form oracle on solver output",
 )
